@@ -282,6 +282,9 @@ def _cases(tier, seed):
         cases.append((("A", (), t),))
     cases.append((("B", ("not",), "SHORT"),))
     cases.append((("A", ("very",), "K"), ("B", ("not",), "L"), ("A", (), "F")))
+    # the same conclusion more than once: one activation per conclusion (what a non-idempotent aggregation then sums)
+    cases.append((("A", (), "LOW"), ("A", (), "LOW")))
+    cases.append((("A", (), "LOW"), ("B", (), "HIGH"), ("A", (), "LOW")))
     base2 = [(("A", ("very",), "LOW"), ("B", (), "HIGH")), (("A", ("h1",), "LOW"), ("B", ("h2",), "HIGH")),
              (("A", ("not",), "LOW"), ("A", (), "HIGH")), (("A", ("any",), "LOW"), ("B", ("somewhat",), "LOW")),
              (("A", ("h1", "h2"), "HIGH"), ("B", ("not",), "LOW"))]
